@@ -146,6 +146,20 @@ def check_roundtrip(sel):
         if why:
             return f"{form}: {why}"
         results[form] = back
+        if with_bonds and form == "cif":
+            # the struct_conn matcher switches to a dictionary-based implementation for large inputs
+            # (FIND_MATCHES_SWITCH_THRESHOLD): read the same file through that implementation as well
+            from biotite.structure.io.pdbx import convert as _cv
+            old = _cv.FIND_MATCHES_SWITCH_THRESHOLD
+            _cv.FIND_MATCHES_SWITCH_THRESHOLD = -1
+            try:
+                buf.seek(0)
+                back2 = pdbx.get_structure(pdbx.CIFFile.read(buf), model=None if sel["models"] == 2 else 1, include_bonds=True, extra_fields=extra)
+            finally:
+                _cv.FIND_MATCHES_SWITCH_THRESHOLD = old
+            why = compare(atoms, back2, opt, with_bonds)
+            if why:
+                return f"{form} read through the dictionary-based struct_conn matcher: {why}"
     for form in ("bcif", "bcif-compressed"):
         why = compare(results["cif"], results[form], opt, with_bonds)
         if why:
@@ -194,7 +208,10 @@ def _replay_roundtrip(w):
 
 
 # ------------------------------------------------------------------- model / altloc selection
-def check_model_select(model, nmodels, altloc):
+OCC = [("0.30", "0.70"), ("0.70", "0.30"), ("0.50", "0.50"), ("0.00", "0.00"), ("0.00", "0.40"), ("1.00", "0.00")]
+
+
+def check_model_select(model, nmodels, altloc, occ=0):
     import biotite.structure as struc
     import biotite.structure.io.pdbx as pdbx
     ccd_fixture.activate()
@@ -217,7 +234,9 @@ def check_model_select(model, nmodels, altloc):
             new_rows.append((r, "B"))
     newcols = {k: [cols[k][r] for r, _ in new_rows] for k in cols}
     newcols["label_alt_id"] = [a for _, a in new_rows]
-    newcols["occupancy"] = ["0.30" if a == "A" else "0.70" if a == "B" else "1.00" for _, a in new_rows]
+    occ_a, occ_b = OCC[occ]
+    b_wins = float(occ_b) > float(occ_a)          # highest occupancy; the first altloc wins a tie (also a tie at zero)
+    newcols["occupancy"] = [occ_a if a == "A" else occ_b if a == "B" else "1.00" for _, a in new_rows]
     newcols["Cartn_x"] = [str(float(x) + (500.0 if a == "B" else 0.0)) for x, (_, a) in zip(newcols["Cartn_x"], new_rows)]
     newcols["id"] = [str(i + 1) for i in range(len(new_rows))]
     block["atom_site"] = pdbx.CIFCategory({k: np.array(v) for k, v in newcols.items()})
@@ -247,7 +266,8 @@ def check_model_select(model, nmodels, altloc):
             want = exp
         elif policy == "occupancy":
             want = list(exp)
-            want[1] += 500.0
+            if b_wins:
+                want[1] += 500.0
         else:
             want = exp[:2] + [exp[1] + 500.0] + exp[2:]
         got = [float(x) for x in coords[slot][:, 0]]
@@ -261,14 +281,62 @@ def ob_model_select(tier):
     for nmodels in (1, 2, 3):
         for altloc in range(3):
             mv = z3.Int("model")
+            oc = z3.Int("occ")
             none = z3.Bool("none")
 
-            def run(nmodels=nmodels, altloc=altloc, mv=mv, none=none):
+            def run(nmodels=nmodels, altloc=altloc, mv=mv, none=none, oc=oc):
                 ex = cur()
+                o = ex.choose(oc, range(len(OCC)))
                 if ex.decide(none):
-                    return check_model_select(None, nmodels, altloc) is None
-                return check_model_select(ex.choose(mv, range(-5, 6)), nmodels, altloc) is None
-            cases.append(Case(f"model selection m={nmodels} altloc={altloc}", [mv >= -5, mv <= 5], run,
-                              dict(model=mv, none=none, nmodels=nmodels, altloc=altloc),
-                              lambda w: _rep(check_model_select, "m", "nmodels", "altloc")(dict(w, m=None if w["none"] else w["model"]))))
+                    return check_model_select(None, nmodels, altloc, o) is None
+                return check_model_select(ex.choose(mv, range(-5, 6)), nmodels, altloc, o) is None
+            cases.append(Case(f"model selection m={nmodels} altloc={altloc}", [mv >= -5, mv <= 5, oc >= 0, oc < (len(OCC) if altloc == 1 else 1)], run,
+                              dict(model=mv, none=none, nmodels=nmodels, altloc=altloc, occ=oc),
+                              lambda w: _rep(check_model_select, "m", "nmodels", "altloc", "occ")(dict(w, m=None if w["none"] else w["model"]))))
     return cases
+
+
+# ------------------------------------------------------------------- struct_conn row matching
+def check_find_matches(ref_bits, q_bits):
+    """both implementations of _find_matches on every small table: 3 reference rows x 2 columns over {0,1}, 2 query rows"""
+    from biotite import InvalidFileError
+    from biotite.structure.io.pdbx import convert as cv
+    ref = [[(ref_bits >> (2 * r + c)) & 1 for c in range(2)] for r in range(3)]
+    qry = [[(q_bits >> (2 * r + c)) & 1 for c in range(2)] for r in range(2)]
+    ref_cols = [np.array([str(row[c]) for row in ref]) for c in range(2)]
+    q_cols = [np.array([str(row[c]) for row in qry]) for c in range(2)]
+    hits = [[i for i, row in enumerate(ref) if row == q] for q in qry]
+    ambiguous = any(len(h) > 1 for h in hits)
+    want = [h[0] if h else -1 for h in hits]
+    old = cv.FIND_MATCHES_SWITCH_THRESHOLD
+    impls = [("dense", lambda: cv._find_matches_by_dense_array(q_cols, ref_cols)), ("dict", lambda: cv._find_matches_by_dict(q_cols, ref_cols))]
+    for thr in (10 ** 6, -1):
+        def via(thr=thr):
+            cv.FIND_MATCHES_SWITCH_THRESHOLD = thr
+            try:
+                return cv._find_matches(q_cols, ref_cols)
+            finally:
+                cv.FIND_MATCHES_SWITCH_THRESHOLD = old
+        impls.append((f"_find_matches(threshold {thr})", via))
+    for name, f in impls:
+        try:
+            got = [int(x) for x in f()]
+        except InvalidFileError:
+            if not ambiguous:
+                return f"{name}: InvalidFileError although every query row matches at most one reference row (ref {ref}, query {qry})"
+            continue
+        if ambiguous:
+            return f"{name}: ambiguous match accepted: {got} (ref {ref}, query {qry})"
+        if got != want:
+            return f"{name}: {got}, expected {want} (ref {ref}, query {qry})"
+    return None
+
+
+def ob_find_matches(tier):
+    r, q = z3.Ints("r q")
+
+    def run():
+        ex = cur()
+        return check_find_matches(ex.choose(r, range(64)), ex.choose(q, range(16))) is None
+    case = Case("struct_conn row matching", [r >= 0, r < 64, q >= 0, q < 16], run, dict(ref_bits=r, q_bits=q), _rep(check_find_matches, "ref_bits", "q_bits"))
+    return [Case(f"{case.label} [q={v}]", case.base + [q == v], run, case.witness, case.replay) for v in range(16)]
